@@ -796,7 +796,7 @@ pub fn property() -> Property {
         checks: vec![Box::new(PoolToggles), Box::new(VaultToggles), Box::new(HelperDepositToggle)],
         assumptions: vec![
             "switches are set through the factories (the real write path); twin worlds are built by the same deterministic builder, so any difference comes from the switches",
-            "token-factory LP (WithdrawLiquidity{} with native LP funds) is not exercised",
+            "the entry path that only exists for token-factory LP tokens (WithdrawLiquidity{} with LP coins as funds) cannot be driven under cw-multi-test 0.16; it is exercised by the token-factory build part (harness_tf, check tf_pool_pause_switches) whose coverage is merged into this evidence file",
         ],
     }
 }
